@@ -992,13 +992,22 @@ func (in *Interp) exec(fr *frame, instr ssa.Instruction, pred bdd.Node, st *Stat
 		fr.vals[x] = &Ptr{Root: r, Nil: bdd.False}
 	case *ssa.FieldAddr:
 		base := in.operand(fr, x.X)
+		stt := x.X.Type().Underlying().(*types.Pointer).Elem().Underlying().(*types.Struct)
+		fd := stt.Field(x.Field)
+		if pc0, isPC := base.(*PtrChoice); isPC {
+			// a field of a table entry selected by a value
+			pc := &PtrChoice{Conds: pc0.Conds}
+			for _, p0 := range pc0.Ptrs {
+				pc.Ptrs = append(pc.Ptrs, &Ptr{Root: p0.Root, Path: joinPath(p0.Path, fd.Name(), fd.Embedded()), Nil: bdd.False})
+			}
+			fr.vals[x] = pc
+			return
+		}
 		p, ok := base.(*Ptr)
 		if !ok {
 			in.undecided(x.Pos(), "field address of %T", base)
 		}
 		in.site("nil dereference (field of a nil pointer)", p.Nil)
-		stt := x.X.Type().Underlying().(*types.Pointer).Elem().Underlying().(*types.Struct)
-		fd := stt.Field(x.Field)
 		fr.vals[x] = &Ptr{Root: p.Root, Path: joinPath(p.Path, fd.Name(), fd.Embedded()), Nil: bdd.False}
 	case *ssa.Field:
 		s, ok := in.operand(fr, x.X).(*Struct)
@@ -1287,6 +1296,31 @@ func (in *Interp) indexAddr(fr *frame, x *ssa.IndexAddr) Value {
 			in.undecided(x.Pos(), "index into empty slice")
 		}
 		return pc
+	}
+	if pc0, ok := base.(*PtrChoice); ok {
+		// a further dimension of a small table: the choice is refined
+		at, isArr := x.X.Type().Underlying().(*types.Pointer).Elem().Underlying().(*types.Array)
+		if isArr && at.Len() <= 256 && int64(len(pc0.Ptrs))*at.Len() <= 4096 {
+			pc := &PtrChoice{}
+			for j, p0 := range pc0.Ptrs {
+				if isConst {
+					pc.Conds = append(pc.Conds, pc0.Conds[j])
+					pc.Ptrs = append(pc.Ptrs, &Ptr{Root: p0.Root, Path: elemPath(p0.Path, int(k)), Nil: bdd.False})
+					continue
+				}
+				for i := 0; i < int(at.Len()); i++ {
+					c := in.C.M.And(pc0.Conds[j], in.C.Eq(iv, in.C.Const(len(iv), uint64(i))))
+					if c == bdd.False {
+						continue
+					}
+					pc.Conds = append(pc.Conds, c)
+					pc.Ptrs = append(pc.Ptrs, &Ptr{Root: p0.Root, Path: elemPath(p0.Path, i), Nil: bdd.False})
+				}
+			}
+			if len(pc.Ptrs) > 0 {
+				return pc
+			}
+		}
 	}
 	in.undecided(x.Pos(), "index address of %T", base)
 	return nil
